@@ -822,6 +822,25 @@ def exhaustive_chunks(rng, budget_large, chunk=4000):
 
 
 # ------------------------------------------------------------------ the check
+def tree_nodes(out):
+    """number of tree nodes in all serialised trees of one route() output (a size guard for the Coq literals)"""
+    n = 0
+    for e in out.get("nets", []):
+        for key in ("ner", "final"):
+            t = e.get(key)
+            if not t:
+                continue
+            if t[0] == "flat":
+                n += len(t[1])
+            elif t[0] == "n":
+                todo = [t]
+                while todo:
+                    x = todo.pop()
+                    n += 1
+                    todo += [k for _, k in x[3] if k[0] == "n"]
+    return n
+
+
 def nontrivial(c, out):
     return (c["kind"] == "valid" and isinstance(out, dict) and
             any(len(set(map(tuple, e["dests"]))) >= 1 for e in out["nets"]))
@@ -863,9 +882,9 @@ def run(chk, args):
             bad = oracle_ner(c, o)
             if bad:
                 chk.fail_input(bad[0], bad[1], dict(case=c, observed=o))
-            elif coq and o != ["hang"] and o["ner"][0] == "n":
+            elif coq and o != ["hang"] and o["ner"][0] == "n" and len(o["keys"]) <= 1500:
                 pending.append((c, o, None))
-            return
+            return not bad
         chk.count("kind:route/%s" % c["kind"])
         chk.count("topology:%s" % c["topo"])
         chk.count("faults:%s" % c["fault"])
@@ -892,6 +911,14 @@ def run(chk, args):
                 o["nets"][0].get("broken") and c["machine"]["w"] * c["machine"]["h"] <= 25:
             chk.sample(dict(case=c, implementation=o))
             state["sampled"] = True
+        if bad:
+            # already a failing input by the oracle: reported above; such an output (a cyclic, shared or otherwise
+            # pathological tree) is not handed to the Coq model comparison / validators
+            chk.count("failing-outputs-not-sent-to-coq")
+            return False
+        if coq and o != ["hang"] and tree_nodes(o) > 1500:
+            chk.count("outputs-too-large-for-coq")
+            return True
         if coq and o != ["hang"]:
             for i in range(len(o["nets"])):
                 pending.append((c, o, i))
@@ -899,6 +926,7 @@ def run(chk, args):
                     all(e.get("final", ["n"])[0] == "n" for e in o["nets"]) and \
                     (not o["error"] or o["error"][0] in ("disconnected", "other")):
                 multi.append(("nets", c, o))
+        return True
 
     if args.replay:
         rp = json.load(open(args.replay))
@@ -931,8 +959,9 @@ def run(chk, args):
         longs = long_cases(rng)
         for c, o in zip(longs, chk.impl("impl_c03.py", longs, timeout=3000)):
             chk.count("long-route-cases")
-            judge(c, o, coq=False)
-            if isinstance(o, dict) and not o["error"] and o["nets"][0].get("final", ["huge"])[0] in ("n", "flat"):
+            fine = judge(c, o, coq=False)
+            if fine and isinstance(o, dict) and not o["error"] and \
+                    o["nets"][0].get("final", ["huge"])[0] in ("n", "flat") and tree_nodes(o) <= 6000:
                 long_v.append((c, o))
         hist = [gen_history(rng) for _ in range(150 if quick else 3000)]
         hchunks = [hist[i:i + 60] for i in range(0, len(hist), 60)]
@@ -941,13 +970,14 @@ def run(chk, args):
                 if not isinstance(o, dict):
                     continue
                 chk.count("histories")
-                if all(not st["error"] or st["nets"] for st in o["steps"]) and all(
+                fine = True
+                for k, (mstate, ok) in enumerate(zip(history_states(c), o["steps"])):
+                    ck = dict(c, kind="valid", machine=mstate, fault="history-step-%d" % min(k, 3))
+                    fine = judge(ck, ok) and fine
+                if fine and all(not st["error"] or st["nets"] for st in o["steps"]) and all(
                         e.get("final", ["n"])[0] == "n" for st in o["steps"] for e in st["nets"]) and \
                         o["steps"] and o["steps"][0]["nets"]:
                     multi.append(("hist", c, o))
-                for k, (mstate, ok) in enumerate(zip(history_states(c), o["steps"])):
-                    ck = dict(c, kind="valid", machine=mstate, fault="history-step-%d" % min(k, 3))
-                    judge(ck, ok)
     _ph.append((_t.time(), 'long+histories impl'))
     # the three Coq evaluations run in the background while the bulk streams are executed and judged (quick tier;
     # in the thorough tier they start after the exhaustive stream, which still adds cases)
@@ -959,15 +989,18 @@ def run(chk, args):
             return
         ex = _cf.ThreadPoolExecutor(max_workers=3)
         exprs = [coq_ner_expr(c, o) if i is None else coq_route_expr(c, o, i) for c, o, i in pending]
-        evals["cases"] = ex.submit(chk.coq_eval, HEADER, exprs, max(40, min(400, -(-len(exprs) // 10))), 3000)
+        # time limits in proportion: a shard of the quick tier takes 5-20 s; one that times out or dies is a broken
+        # obligation (the failing inputs found by the oracle are reported regardless)
+        lim = 180 if quick else 1500
+        evals["cases"] = ex.submit(chk.coq_eval, HEADER, exprs, max(40, min(400, -(-len(exprs) // 10))), lim)
         if multi:
             evals["multi"] = ex.submit(
                 chk.coq_eval, HEADER,
                 [coq_nets_expr(c, o) if k == "nets" else coq_hist_expr(c, o) for k, c, o in multi],
-                max(20, -(-len(multi) // 6)), 2400, "multi")
+                max(20, -(-len(multi) // 6)), lim, "multi")
         if long_v:
             evals["long"] = ex.submit(chk.coq_eval, HEADER, [coq_check_tree_expr(c, o, 0) for c, o in long_v],
-                                      1, 1200, "long")
+                                      1, lim, "long")
     if quick:
         start_evals()
     # a larger dense-fault stream judged by the independent oracle only (the repair step is where trees go wrong;
